@@ -365,9 +365,13 @@ def run(ctx):
         acc = accept_blocks_of(body)
         # comparison (PartialEq::eq/ne or array compare) between header-derived bytes and identity.salt
         found = False
+        from .common import bytes_equality_kind
         for (blk, c, t) in body.calls():
-            if c.name not in ("PartialEq::eq", "PartialEq::ne"):
+            helper_kind = bytes_equality_kind(prog, c.target) if c.name not in ("PartialEq::eq", "PartialEq::ne") else None
+            if c.name not in ("PartialEq::eq", "PartialEq::ne") and helper_kind is None:
                 continue
+            if getattr(body, "is_flat", False) and body.term(blk)["k"] != "call" and helper_kind is None:
+                pass
             locs = [op_place(a)[0] for a in t["args"] if op_place(a)]
             touches_salt = False
             for l in locs:
@@ -380,9 +384,14 @@ def run(ctx):
                                 touches_salt = True
             if not touches_salt:
                 continue
+            if helper_kind == "not-equality":
+                ctx.ob("V4", body.defp, "request-salt-compare-is-an-equality", loc(t["sp"]), False,
+                       f"the echoed request salt is compared with `{c.name}`, which folds the byte differences with XOR (no OR): differences in two positions cancel, so a "
+                       "response bound to another request (a salt that differs by the same delta in two bytes) is accepted")
+                continue
             gates = [g for g in gates_of_value(body, t["dest"][0]) if g.kind == "bool"]
             for g in gates:
-                eq_truth = (c.name == "PartialEq::eq")
+                eq_truth = (c.name != "PartialEq::ne")
                 eq_t = g.bool_target(eq_truth)
                 ne_t = g.bool_target(not eq_truth)
                 if err_only(prog, body, ne_t):
